@@ -54,6 +54,27 @@ def has_var_free_operand(f):
 
 
 KNOWN_EARLY_START = 'start-before-domain:bounded-operator-with-t0>0'
+KNOWN_EARLY_START_VALUES = 'values-before-domain-read:past-operator-over-bounded-future-with-t0>0'
+
+
+def past_over_bounded_future(f):
+    for s in F.subterms(f):
+        past = (s[0] == 'un' and s[1] in ('once', 'historically')) or (s[0] == 'bin' and s[1] == 'since') or \
+            (s[0] == 'tun' and s[1] in ('once', 'historically')) or (s[0] == 'tbin' and s[1] == 'since')
+        if past and any((x[0] == 'tun' and x[1] in ('eventually', 'always')) or (x[0] == 'tbin' and x[1] == 'until')
+                        for c in F.children(s) for x in F.subterms(c)):
+            return True
+    return False
+
+
+def _shifted_to_zero_passes(case):
+    k0 = min(s[0][0] for s in case['signals'].values())
+    c = dict(case)
+    c['signals'] = {v: [[k - k0, x] for k, x in s] for v, s in case['signals'].items()}
+    try:
+        return check(c).status == 'pass'
+    except Exception:  # noqa
+        return False
 
 
 def check_shifted_bounded(case):
@@ -80,6 +101,10 @@ def check(case, early_start_is_known=False):
         for s in F.subterms(f):
             if s[0] in ('pred', 'bin', 'un', 'tun', 'tbin') and not F.fvars(s):
                 return DISCARD('variable-free-subformula-with-t0>0', labels)
+            arith = (s[0] == 'pred') or (s[0] == 'bin' and s[1] in F.BIN_ARITH) or (s[0] == 'un' and s[1] in F.UN_ARITH)
+            if not arith and any(c[0] == 'const' for c in F.children(s)):
+                # a bare constant as the operand of a Boolean / temporal operator is a signal of its own (defined from 0)
+                return DISCARD('variable-free-subformula-with-t0>0', labels)
     try:
         K0, Kend, ref = ct_cells(f, sig)
     except Undefined:
@@ -101,6 +126,12 @@ def check(case, early_start_is_known=False):
         else:
             return FAIL('start:' + attribute(f, sig, q), desc + '\nresult does not start at the beginning of the domain (%g): %r' % (t0, out[:3]), labels)
     bad = compare_ct(out, K0, Kend, ref, q, needs_tolerance(f))
+    if bad and early_start_is_known and K0 > 0 and past_over_bounded_future(f) and _shifted_to_zero_passes(case):
+        # second face of the open finding: a bounded future operator delivers values for times before t0 (computed from
+        # the data after t0), and a past operator above it reads them where the semantics sees the start of the domain
+        return FAIL(KNOWN_EARLY_START_VALUES, desc + '\nresult: %r\nat t=%g rtamt gives %r, reference %r: the past operator reads values that the bounded future '
+                    'operator below it reports for times before the signals start (the same case with all time stamps moved to start at 0 agrees with the reference)' % (
+                        out, bad[0], bad[1], bad[2]), labels + ['early-start'])
     if bad:
         return FAIL('mismatch:' + attribute(f, sig, q), desc + '\nresult: %r\nat t=%g rtamt gives %r, reference %r\nreference cells from %d: %s' % (
             out, bad[0], bad[1], bad[2], K0, ref[:Kend - K0 + 1]), labels)
